@@ -15,6 +15,8 @@
 # limitations under the License.
 
 from __future__ import division
+
+from html import escape
 from mapproxy.template import template_loader, bunch
 
 import math
@@ -187,7 +189,7 @@ class TileServer(Server):
 
     def _service_md(self, map_request):
         md = dict(self.md)
-        md['url'] = map_request.http.base_url
+        md['url'] = escape(map_request.http.base_url)
         return md
 
     def _render_template(self, layers, service):
